@@ -569,6 +569,45 @@ fn dump(tcx: TyCtxt<'_>) -> J {
             ("debug", J::A(dbg)),
             ("blocks", J::A(blocks)),
         ];
+        // promoted constants (`&"literal"`, `&SomeEnum::Variant` used by reference): what each one holds, as text
+        {
+            let proms = tcx.promoted_mir(did);
+            let mut pj = vec![];
+            for (pi, pb) in proms.iter_enumerated() {
+                let pcx = FnCx { tcx, body: pb, def: ldid };
+                let mut strs = vec![];
+                let mut texts = vec![];
+                for bb in pb.basic_blocks.iter() {
+                    for st in &bb.statements {
+                        if let mir::StatementKind::Assign(b) = &st.kind {
+                            let rv = &b.1;
+                            let mut ops: Vec<&Operand<'_>> = vec![];
+                            match rv {
+                                Rvalue::Use(o, ..) => ops.push(o),
+                                Rvalue::Cast(_, o, _) => ops.push(o),
+                                Rvalue::Aggregate(_, os) => { for o in os.iter() { ops.push(o); } }
+                                _ => {}
+                            }
+                            for o in ops {
+                                if let Operand::Constant(c) = o {
+                                    let env = TypingEnv::post_analysis(tcx, ldid.to_def_id());
+                                    if let Some(sv) = str_const(tcx, &c.const_, env) {
+                                        strs.push(J::S(sv));
+                                    }
+                                    texts.push(J::S(ty::print::with_no_trimmed_paths!(format!("{}", c.const_))));
+                                }
+                            }
+                            if let Rvalue::Aggregate(k, _) = rv {
+                                texts.push(J::S(format!("{:?}", k)));
+                            }
+                        }
+                    }
+                }
+                let _ = &pcx;
+                pj.push(J::obj(vec![("i", J::I(pi.as_usize() as i64)), ("strs", J::A(strs)), ("texts", J::A(texts))]));
+            }
+            o.push(("promoted", J::A(pj)));
+        }
         if matches!(kind, DefKind::AssocFn) {
             if let Some(imp) = tcx.impl_of_assoc(did) {
                 let st = tcx.type_of(imp).instantiate_identity().skip_norm_wip();
